@@ -113,6 +113,16 @@ CHECKS["C15"] = (
     "write through to their operands; concatenation of N=1..3 (thorough 4) spectra along time/latitude returns input i "
     "at index i in every variable (isel and []), flatten keeps the C-order pairing and the count.", "DESIGN.md#c15",
     "netCDF save/load is outside (file I/O); longer sequences follow by induction from the single-operation claim.")
+CHECKS["C07"] = (
+    "inverse_intrinsic_dispersion_relation with the Newton loop unrolled for 0, 1 (thorough 2) iterations on arrays of "
+    "two elements with independent symbolic omega>0, depth>0 (sqrt/tanh/sinh uninterpreted with axioms): the first guess "
+    "is the deep/shallow regime guess, one step is k0 - error/(n(k0 d) omega/k0) in every reachable regime, on the "
+    "converged exit EVERY element has relative residual < 1e-3 and the non-convergence report is only issued when "
+    "some element misses the tolerance; regime-mixing concrete witnesses through the same harness. Group velocity: "
+    "cg = n c with n = 1/2+kd/sinh(2kd) (1/2 for kd>5), n in [1/2,1], n*omega/k == d omega/dk from the tanh/sinh "
+    "identity, and for kd>5 the constant is within 2e-3 (degree-9 Taylor bound). Spectrum wavenumber/group velocity/"
+    "wavelength/wave speed call the solvers with (2 pi f, depth_p or +inf for missing depth).", "DESIGN.md#c07",
+    "Convergence within 10 iterations, positivity, monotonicity and asymptotes are NOT claimed (no delta-complete solver).")
 NA = {}
 
 ALL = [f"C{i:02d}" for i in range(1, 21)]
